@@ -171,7 +171,7 @@ Qed.
 Lemma op_cols_nonneg_prints : forall ops, prints_only ops = true ->
   (forall s, In (TPrint s) ops -> 0 <= text_width s) -> forall o, In o ops -> 0 <= op_cols o.
 Proof.
-  intros ops Hp Hs o Ho. destruct o; cbn [op_cols]; try lia.
+  intros ops Hp Hs o Ho. destruct o as [l c|p|u|n mv]; cbn [op_cols]; [lia|lia| |].
   - apply Hs. exact Ho.
   - exfalso. clear Hs. induction ops as [|x l IH]; [contradiction|].
     destruct x; cbn [prints_only] in Hp; try discriminate;
